@@ -42,7 +42,7 @@ def main():
         subprocess.run(["rsync", "-a", "--exclude", "target", "--exclude", "rsactor_shadow", os.path.join(VERIF, "sim") + "/", sim + "/"], check=True)
         mth = os.path.join(base, "mthreads")
         if os.path.isdir(os.path.join(VERIF, "mthreads")):
-            subprocess.run(["rsync", "-a", "--exclude", "target", os.path.join(VERIF, "mthreads") + "/", mth + "/"], check=True)
+            subprocess.run(["rsync", "-a", "--exclude", "target", "--exclude", "target-metrics", os.path.join(VERIF, "mthreads") + "/", mth + "/"], check=True)
         env = dict(os.environ)
         env.update({"VERIF_REPO": repo, "VERIF_SIM": sim, "VERIF_MTH": mth, "VERIF_EVID": os.path.join(base, "evidence"), "VERIF_REPLAYS": os.path.join(base, "replays"), "VERIF_WORK": os.path.join(base, "work")})
         results = {}
